@@ -209,6 +209,12 @@ def run(tier):
         ck.violation("spec: Readout " + ",".join(r.violated), {"violated": r.violated}, site="spec")
     must_pass(r, "MC_Readout")
     ck.tlc(r, "readout_select")
+    # tied log-probabilities: IsTop / InSomeTop (what ReadoutTrace evaluates) against their definitions on every rank assignment with ties
+    nl = (4, 4) if tier == "quick" else (5, 5)
+    r2 = run_tlc("MC_ReadoutTies", cfg_text="INIT Init\nNEXT Next\nCONSTANTS N = %d L = %d\n" % nl, timeout=1500)
+    must_pass(r2, "MC_ReadoutTies")
+    ck.tlc(r2, "readout_ties_predicates")
+    ck.count("readout_ties_predicates", "rank_assignments_with_ties", sum(nl[1] ** n for n in range(1, nl[0] + 1)))
     table = {(p["n"], p["burn"], p["thin"]): p["ids"] for p in r.printed}
     events = []
     ev_ident = []
